@@ -18,7 +18,7 @@ func propC17() Property {
 		Explanation: "Ordering rules on every path of the persistent stores' write operations. R1: the file store increments the outbound counter only after SaveMessage returned nil. " +
 			"R2: file SaveMessage returns nil only after the message bytes AND the header (index) line were written with their errors checked, the bytes BEFORE the index line (a process death in between must leave unreferenced bytes, not an index entry without bytes), and — when syncing is enabled — after both files were synced, the body file before the header file. " +
 			"R3: counter files are rewritten by seek-to-start → write → (sync), errors checked, with a zero-padded fixed-width format of at least 19 digits so that a shorter number never leaves stale trailing digits. " +
-			"R4: SQL save-and-increment runs both statements on one transaction, commits only when both succeeded, leaves through Commit or Rollback on every exit after Begin, and updates the cache only after Commit returned nil. R5: no store I/O error is dropped (shared with C16-R7).",
+			"R4: SQL save-and-increment runs both statements on one transaction, commits only when both succeeded, leaves through Commit or Rollback on every exit after Begin, and updates the cache only after Commit returned nil. R5: no store I/O error is dropped (shared with C16-R7). R6: the file store's loader never turns a read or parse failure of a counter/session file's content into an error of the open — those files are created empty before their first write and a rewrite can be cut short, and reopening must succeed with the default value.",
 		NotDecided: "torn writes inside one write call, what the filesystem persists across power loss beyond the sync order, recovery after reopen as a behaviour over crash points.",
 		Rules: []RuleDef{
 			{ID: "C17-R1", Desc: "file: save before increment", Min: 1, Run: c17R1},
@@ -26,6 +26,7 @@ func propC17() Property {
 			{ID: "C17-R3", Desc: "counter rewrite: seek → fixed-width write → sync", Min: 3, Run: c17R3},
 			{ID: "C17-R4", Desc: "sql save-and-increment is one transaction; cache after commit", Min: 4, Run: c17R4},
 			{ID: "C17-R5", Desc: "no store I/O error dropped", Min: 20, Run: c16R7},
+			{ID: "C17-R6", Desc: "file store: the loader tolerates empty / torn counter and session files", Min: 1, Run: c17R6},
 		},
 	}
 }
@@ -519,4 +520,52 @@ func allExitsPass(p *Prog, fn *ssa.Function, begin, commit ssa.CallInstruction) 
 		}
 	})
 	return ok
+}
+
+// C17-R6: reopening succeeds on whatever a crash left behind. The counter and session files are
+// created empty before their first write, and a rewrite can be cut short; the file store's loader
+// must therefore treat an unreadable or unparsable file as "keep the default" and never turn a
+// read/parse failure of the medium's content into an error of the open.
+func c17R6(c *Ctx) {
+	p := c.P
+	parseFns := map[string]bool{"strconv.Atoi": true, "strconv.ParseInt": true, "(*time.Time).UnmarshalText": true, "os.ReadFile": true, "io/ioutil.ReadFile": true, "fmt.Sscanf": true, "fmt.Fscanf": true}
+	n := 0
+	for _, s := range getStores(p) {
+		if s.Kind != "file" {
+			continue
+		}
+		for _, fn := range p.FuncsIn(fnPkg(s.method["Refresh"]).Pkg.Path()) {
+			if !p.isLoader(fn) {
+				continue
+			}
+			n++
+			okAll := true
+			for _, b := range fn.Blocks {
+				r, ok := b.Instrs[len(b.Instrs)-1].(*ssa.Return)
+				if !ok || len(r.Results) == 0 || !isErrorType(r.Results[len(r.Results)-1].Type()) || p.Origin(r.Results[len(r.Results)-1]).IsNil() {
+					continue
+				}
+				d := p.ReachCond(b)
+				for _, a := range d.Atoms() {
+					if a.Rel != "!=" {
+						continue
+					}
+					l, rr := a.L, a.R
+					if !rr.IsNil() {
+						l, rr = rr, l
+					}
+					if rr.IsNil() && l.Kind == "call" && parseFns[l.CalleeName()] && d.Implies(func(x *Atom) bool { return x == a || x.ID() == a.ID() }) {
+						okAll = false
+						c.Violation(FuncName(fn), p.InstrPos(r), "open-fails-on-torn-file", "the loader returns an error because "+a.String()+": a counter or session file that a crash left empty or half-written (it is created before its first write) makes every later open of the store fail, instead of falling back to the default value")
+					}
+				}
+			}
+			if okAll {
+				c.OK(FuncName(fn), p.Pos(fn.Pos()), "read/parse failures of the medium's content are not turned into errors")
+			}
+		}
+	}
+	if n == 0 {
+		c.Violation("", "-", "no-file-loader", "the file store's loader was not found")
+	}
 }
